@@ -135,3 +135,52 @@ Lemma occurrence_meaning ps text s e : occurrence ps text s e <->
   exists p, In p ps /\ p <> [] /\ (0 <= s)%Z /\ e = (s + Z.of_nat (length p))%Z /\
             is_prefix p (skipn (Z.to_nat s) text) && (is_bound text (Z.to_nat s) && is_bound text (Z.to_nat s + length p)) = true.
 Proof. reflexivity. Qed.
+
+(* ------------------------------------------------------------------ PrefixSearch *)
+From V Require Import Proofs.TriePrefix.
+
+Lemma built_length ps T : built ps T -> length T = length (inserts ps).
+Proof.
+  intros E. destruct (build_correct (inserts ps) (ins_wf _ _ (INS_inserts ps)) (ins_fail _ _ (INS_inserts ps))) as (T' & E' & _ & _ & L').
+  unfold built in E. rewrite E in E'. inversion E'; subst. exact L'.
+Qed.
+
+Lemma canon_nodes ps : Forall is_bytes ps -> forall x, inT (inserts ps) x = true -> runes_of (wbytes x) = x.
+Proof.
+  intros Hps x Hx. destruct (inserts_nodes ps x Hx) as [->|(p & ext & Hp & E)]; [reflexivity|].
+  rewrite Forall_forall in Hps. apply (runes_prefix_canon p x ext (Hps p Hp) E).
+Qed.
+
+Theorem prefix_search_correct ps key T : Forall is_bytes ps -> is_bytes key -> built ps T ->
+  exists l, M.prefix_search T key = Ok l /\ NoDup l /\
+    (forall y, In y l <-> In y ps /\ y <> [] /\ is_prefix key y = true /\ is_bound y (length key) = true).
+Proof.
+  intros Hps Hb E. destruct (built_facts ps T E) as [HS _]. pose proof (INS_inserts ps) as HI.
+  destruct (prefix_search_nodes (inserts ps) T (ins_wf _ _ HI) HS (built_length ps T E) (canon_nodes ps Hps) key (wbytes_runes_of key Hb))
+    as (l & El & Hn & Hl).
+  exists l. split; [exact El|]. split; [exact Hn|]. intros y. rewrite Hl. split.
+  - intros (x & (e & Ex) & Hx & He & ->). apply (ins_end _ _ HI) in He. destruct He as (p & Hp & Hne & Er).
+    assert (Hpb : is_bytes p) by (rewrite Forall_forall in Hps; apply Hps; exact Hp).
+    assert (Ep : wbytes x = p) by (rewrite <- Er; apply wbytes_runes_of; exact Hpb).
+    rewrite Ep. split; [exact Hp|]. split; [exact Hne|]. split.
+    + apply is_prefix_app. exists (wbytes e). rewrite <- Ep, Ex, wbytes_app, (wbytes_runes_of key Hb). reflexivity.
+    + apply is_bound_iff. rewrite <- (wbytes_runes_of key Hb). apply (bounds_prefix_runes (runes_of key) p e Hpb (eq_trans Er Ex)).
+  - intros (Hp & Hne & Hpre & Hbd). apply is_prefix_app in Hpre. destruct Hpre as (c & Ec). apply is_bound_iff in Hbd.
+    assert (Hpb : is_bytes y) by (rewrite Forall_forall in Hps; apply Hps; exact Hp).
+    rewrite Ec in Hbd. pose proof (tokens_app key c Hbd) as Ht.
+    exists (runes_of y). split; [|split; [|split]].
+    + exists (runes_of c). unfold runes_of. rewrite Ec, Ht, map_app. reflexivity.
+    + assert (He : is_end (inserts ps) (runes_of y) = true) by (apply (ins_end _ _ HI); exists y; auto).
+      unfold is_end in He. unfold TrieBuild.inT0, inT. destruct (get (inserts ps) (runes_of y)); [reflexivity|discriminate].
+    + apply (ins_end _ _ HI). exists y. auto.
+    + symmetry. apply wbytes_runes_of. exact Hpb.
+Qed.
+
+(* the executable specification of the run (rune-aligned reading) lists the same strings *)
+Theorem prefix_search_spec ps key T : Forall is_bytes ps -> is_bytes key -> built ps T ->
+  exists l, M.prefix_search T key = Ok l /\ NoDup l /\ (forall y, In y l <-> In y (spec_prefix true ps key)).
+Proof.
+  intros Hps Hb E. destruct (prefix_search_correct ps key T Hps Hb E) as (l & El & Hn & Hl).
+  exists l. split; [exact El|]. split; [exact Hn|]. intros y. rewrite Hl. unfold spec_prefix. rewrite filter_In, patterns_in.
+  cbn [negb orb]. rewrite andb_true_iff. tauto.
+Qed.
